@@ -46,12 +46,12 @@ func verifNewEnv() *verifEnv {
 				w.WriteHeader(http.StatusOK)
 			}
 		case verifFaultOversized:
-			_, _ = w.Write([]byte(verifNew + "||way.too.long.example^\n"))
+			_, _ = w.Write([]byte(verifServed + "||way.too.long.example^\n||and.longer.still.example^\n"))
 		case verifFaultTruncated:
 			w.Header().Set("Content-Length", "1000")
-			_, _ = w.Write([]byte(verifNew[:9]))
+			_, _ = w.Write([]byte(verifServed[:9]))
 		default:
-			_, _ = w.Write([]byte(verifNew))
+			_, _ = w.Write([]byte(verifServed))
 		}
 	}))
 	return e
@@ -87,6 +87,14 @@ func (e *verifEnv) readCache() (string, bool) {
 	}
 	return string(b), true
 }
+func (e *verifEnv) cacheAge(now time.Time) time.Duration {
+	fi, err := os.Stat(e.path)
+	if err != nil {
+		return 0
+	}
+	return now.Sub(fi.ModTime())
+}
+func (e *verifEnv) stampCache(now time.Time) { _ = os.Chtimes(e.path, now, now) }
 func (e *verifEnv) downloads() int      { return e.nDown }
 func (e *verifEnv) effectiveFault() int { return e.fault }
 func (e *verifEnv) tempFilesLeft() int {
